@@ -14,6 +14,35 @@ import (
 func moreAnchors() {
 	rdpAnchors()
 	configAnchors()
+	emitConsts("cmd/rdpgw/web/oidc.go", "oidc_", []string{"CacheExpiration", "CleanupInterval"}, map[string]bool{"CacheExpiration": true, "CleanupInterval": true})
+	emitConsts("cmd/rdpgw/web/session.go", "session_", []string{"rdpGwSession", "MaxAge", "identityKey", "maxSessionLength"}, nil)
+	emitConsts("cmd/rdpgw/kdcproxy/proxy.go", "kdc_", []string{"maxLength", "timeout"}, map[string]bool{"timeout": true})
+	emitConsts("cmd/auth/ntlm/ntlm.go", "ntlm_", []string{"cacheExpiration"}, map[string]bool{"cacheExpiration": true})
+	// the user-name claims looked at, in order
+	fu := findFunc("cmd/rdpgw/web/oidc.go", "findUsernameInClaims")
+	cl := compositeOf(fu, "[]string")
+	if len(cl) != 1 {
+		die("findUsernameInClaims: candidates list")
+	}
+	var names []string
+	for _, c := range cl[0] {
+		names = append(names, strings.Trim(c, "\""))
+	}
+	emitSL("OIDC_USERNAME_CLAIMS", names)
+	// HandleCallback: every `if userName == "" { http.Error(...) ... }` must return
+	hc := findFunc("cmd/rdpgw/web/oidc.go", "HandleCallback")
+	ret := false
+	ast.Inspect(hc.Body, func(n ast.Node) bool {
+		if is, ok := n.(*ast.IfStmt); ok && exprString(is.Cond) == "userName==\"\"" {
+			for _, st := range is.Body.List {
+				if _, ok := st.(*ast.ReturnStmt); ok {
+					ret = true
+				}
+			}
+		}
+		return true
+	})
+	emitB("OIDC_EMPTY_USERNAME_RETURNS", ret)
 }
 
 // configAnchors: the key-length tests, the fatal checks and the default map of config.Load.
